@@ -7,7 +7,8 @@ from props import _txw
 SPEC = {
     "uses_gen": True,          # checked arithmetic and fee formulas are the translated code
     "cmd": "c12",
-    "budget": (800, 20000),
+    "budget": (800, 8000),
+    "search_seeds": 1,
     "header": "From Sky Require Import Base.Uint Model.ArithSpec Model.TxVerify Model.Create.\nOpen Scope Z_scope.",
     "gen_header": "",
     "corr": "C12_corr.v",
